@@ -236,6 +236,30 @@ pub fn seq_phases(prop: &str, tier: &str) -> Vec<Phase> {
                 Phase { name: "tiny alphabet + restarts, deeper", spec: t },
             ]
         }
+        "C07" => {
+            // eager-worker dimension: every read at every state under small payload
+            // caches and frequent rotation (the worker-timing dimension is schedx's)
+            let o = Oracles {
+                semantics: true,
+                ..Default::default()
+            };
+            let cfgs = vec![
+                Cfg::records(2).with_cache(Some(0), None),
+                Cfg::records(3).with_cache(None, Some(5)),
+                Cfg::size(120).with_cache(Some(1), None),
+            ];
+            let mut v = vec![Phase {
+                name: "legal alphabet (incl. batches and 40 000-byte entries), eager worker, small caches",
+                spec: spec(prop, Alpha::Legal, if thorough { 4 } else { 3 }, cfgs.clone(), o.clone(), if thorough { 1200 } else { 35 }),
+            }];
+            if thorough {
+                v.push(Phase {
+                    name: "core alphabet, deeper, small caches",
+                    spec: spec(prop, Alpha::Core, 6, cfgs[..2].to_vec(), o.clone(), 1200),
+                });
+            }
+            v
+        }
         "C06" => {
             let o = Oracles {
                 semantics: true,
@@ -411,12 +435,16 @@ pub fn run_check(prop: &str, tier: &str) -> i32 {
             if samples.is_empty() {
                 samples.push(json!("(no history explored)"));
             }
+            // eager-worker dimension (seqx), after the scheduler runs (both use all cores)
+            let (seq_cov, seq_machinery) = seq_collect(&rep, seq_phases(prop, tier), json!({}));
+            let sq = |k: &str| seq_cov.get(k).and_then(|v| v.as_u64()).unwrap_or(0);
             let cov = json!({
-                "states": (c.stats.scheduler_states + r.stats.scheduler_states).max(1),
-                "transitions": (c.stats.steps + r.stats.steps).max(1),
-                "traces_validated_against_impl": c.stats.executions + r.stats.executions,
+                "states": (c.stats.scheduler_states + r.stats.scheduler_states + sq("states")).max(1),
+                "transitions": (c.stats.steps + r.stats.steps + sq("transitions")).max(1),
+                "traces_validated_against_impl": c.stats.executions + r.stats.executions + sq("traces_validated_against_impl"),
                 "samples": samples,
-                "exhaustive": c.stats.caps_hit == 0 && c.skipped == 0 && r.stats.caps_hit == 0 && r.skipped == 0,
+                "exhaustive": c.stats.caps_hit == 0 && c.skipped == 0 && r.stats.caps_hit == 0 && r.skipped == 0 && seq_cov.get("exhaustive").and_then(|v| v.as_bool()).unwrap_or(false),
+                "eager_worker_dimension": seq_cov,
                 "work_items_history_x_config": c.items,
                 "histories_skipped_by_wall_cap": c.skipped,
                 "detail": c.stats.to_json(),
@@ -429,7 +457,7 @@ pub fn run_check(prop: &str, tier: &str) -> i32 {
                 "explanation": SCHED_EXPLANATION,
             });
             let code = rep.finish("model_checking", cov, sched_assumptions());
-            if let Some(m) = c.machinery.or(r.machinery) {
+            if let Some(m) = c.machinery.or(r.machinery).or(seq_machinery) {
                 println!("MACHINERY-FAILURE: {}", m);
                 return 2;
             }
@@ -844,6 +872,9 @@ pub fn sched_specs(prop: &str, tier: &str) -> Vec<HistSpec> {
                 vec![Sym::A, Sym::Aup, Sym::A, Sym::F, Sym::W, Sym::T, Sym::T, Sym::Alow, Sym::R],
                 vec![Sym::A, Sym::Aup, Sym::F, Sym::W, Sym::I, Sym::T, Sym::Alow, Sym::E, Sym::R],
                 vec![Sym::A, Sym::A, Sym::A, Sym::F, Sym::W, Sym::I, Sym::E, Sym::R, Sym::A, Sym::R],
+                // a closed, synced, evicted chunk holding two 40 000-byte entries: the
+                // second one straddles every 64 KiB block boundary a reader might use
+                vec![Sym::Ahuge, Sym::Ahuge, Sym::A, Sym::F, Sym::W, Sym::I, Sym::E, Sym::R],
             ];
             if thorough {
                 let alpha2 = [Sym::A, Sym::F, Sym::W, Sym::Ks, Sym::Ki, Sym::E, Sym::T, Sym::Pfirst];
@@ -1020,7 +1051,14 @@ pub fn c14_specs(tier: &str) -> Vec<crate::c14::C14Spec> {
                     if plen >= 2 && !thorough && (c.max_records == Some(2) || tail >= 1) {
                         continue;
                     }
-                    out.push(crate::c14::C14Spec { prop: "C14".to_string(), phase1: syms_ops.clone(), cfg: c, max_executions: 300_000 });
+                    out.push(crate::c14::C14Spec { prop: "C14".to_string(), phase1: syms_ops.clone(), cfg: c, max_executions: 300_000, unwind_drop: false });
+                    // the same, dropped by unwinding: quick tier for the purge prefixes
+                    // (a removal is pending behind the acknowledged flush) and the
+                    // empty prefix with a rotated tail pending
+                    let pending_removal = prefix.iter().any(|o| matches!(o, SOp::W(crate::model::Op::Purge(_))));
+                    if thorough || (pending_removal && tail == 0) || (plen == 0 && tail == 2 && c.max_records == Some(3)) {
+                        out.push(crate::c14::C14Spec { prop: "C14".to_string(), phase1: syms_ops.clone(), cfg: c, max_executions: 300_000, unwind_drop: true });
+                    }
                 }
             }
         }
